@@ -8,17 +8,23 @@
 (* saturation), C11 (Next, Prev, chains), C14 (same operators, whatever the *)
 (* call history), C12 (Load classes).                                      *)
 (***************************************************************************)
-EXTENDS Zone, TraceCommon
+EXTENDS Zone, Fixed, TraceCommon
 RealTMin == <<-1, 5808, 5477, 368, 3372, 922>>
 RealTMax == <<1, 5807, 5477, 368, 3372, 922>>
 RealBigBang == <<-1, 3488, 342, 7523, 6460, 57>>
 
-Loads == SelectSeq(TraceLog, LAMBDA e : e.e = "Load")
-Dec == TLCEval([k \in 1..Len(Loads) |-> Decode(Loads[k].bytes)])
-ZT == TLCEval([k \in 1..Len(Loads) |-> IF StructOk(Dec[k]) THEN MkZone(Dec[k]) ELSE [n |-> -1]])
+\* zones come from TZif bytes (Load) or are the library's built-in fixed-offset zones (LoadFixed)
+Loads == SelectSeq(TraceLog, LAMBDA e : e.e \in {"Load", "LoadFixed"})
+IsFixedLoad(k) == Loads[k].e = "LoadFixed"
+FixedZone(off) == [n |-> 0, at |-> <<>>, ty |-> <<>>, types |-> <<TypeRec(off, FALSE, OffsetToAbbr(off))>>, dflt |-> 1,
+                   real |-> <<>>, rule |-> [kind |-> "none"], rt |-> <<>>]
+Dec == TLCEval([k \in 1..Len(Loads) |-> IF IsFixedLoad(k) THEN [ok |-> FALSE, why |-> "builtin"] ELSE Decode(Loads[k].bytes)])
+ZT == TLCEval([k \in 1..Len(Loads) |-> IF IsFixedLoad(k) THEN FixedZone(Effective(Loads[k].off))
+                                        ELSE IF StructOk(Dec[k]) THEN MkZone(Dec[k]) ELSE [n |-> -1]])
 \* what is demanded of the loader for these bytes
 Class == TLCEval([k \in 1..Len(Loads) |->
-  IF ~StructOk(Dec[k]) THEN "other"
+  IF IsFixedLoad(k) THEN "zic"
+  ELSE IF ~StructOk(Dec[k]) THEN "other"
   ELSE IF Dec[k].leapcnt # 0 THEN "mustfail"
   ELSE IF ZT[k].rule.kind = "bad" THEN (IF Unconstrained(Dec[k].footer) THEN "other" ELSE "mustfail")
   ELSE IF TimesInZicRange(Dec[k]) /\ Dec[k].typecnt <= 254 /\ WellFormed(ZT[k]) THEN "zic"
@@ -36,7 +42,6 @@ B01(b) == IF b THEN 1 ELSE 0
 
 \* The shape of the table Load() builds (ZoneImpl!Table) is observable through description():
 \* "#trans=<n> #types=<m> spec='<footer>'" - for zones without a DST rule the model predicts it.
-Str(s) == s
 TableLen(Z) == LET n1 == Z.n + (IF Z.n = 0 \/ ~(Z.at[1] \prec WZero) THEN 1 ELSE 0)
                    lastNeg == IF Z.n = 0 THEN TRUE ELSE Z.at[Z.n] \prec WZero
                IN  n1 + (IF lastNeg THEN 1 ELSE 0)
@@ -126,6 +131,7 @@ PrevExactWhenNear(e) ==
 OkChainEnd(e) == Oracle(e.z) => (chn.fn = chn.bn /\ chn.ff = chn.bl /\ chn.fl = chn.bf)
 
 Allowed(e) == CASE e.e = "Load"    -> OkLoad(e)
+                [] e.e = "LoadFixed" -> e.ok = 1
                 [] e.e = "Break"   -> OkBreak(e)
                 [] e.e = "Make"    -> OkMake(e)
                 [] e.e = "Convert" -> OkConvert(e)
@@ -155,7 +161,7 @@ Next == /\ l <= TraceLen
         /\ LET e == TraceLog[l]  ok == Allowed(e) IN
              /\ bad' = IF ok THEN bad ELSE bad + 1
              /\ IF ok THEN TRUE ELSE Reject(l, e.e)
-             /\ cv' = IF e.e = "Convert" THEN <<e.z, e.cs, e.t>> ELSE IF e.e = "Load" THEN NoCv ELSE cv
+             /\ cv' = IF e.e = "Convert" THEN <<e.z, e.cs, e.t>> ELSE IF e.e \in {"Load", "LoadFixed"} THEN NoCv ELSE cv
              /\ chn' = NextChain(e)
 Spec == Init /\ [][Next]_vars
 =============================================================================
